@@ -51,6 +51,13 @@ func init() {
 		"github.com/fatih/color.Green": libPrint,
 	}
 	m["fmt.Sscanf"] = libSscanf
+	m["encoding/binary.Read"] = libBinaryRead
+	m["os.Getwd"] = libGetwd
+	m["path/filepath.Rel"] = libRel
+	m["path/filepath.Abs"] = libAbs
+	m["path/filepath.Clean"] = libClean
+	m["strings.ReplaceAll"] = libReplaceAll
+	m["(*github.com/spf13/cobra.Command).Flags"] = libNonNil
 	for k, v := range m {
 		libModels[k] = v
 	}
@@ -96,7 +103,53 @@ func libReadFile(g *FuncGen, c *ast.CallExpr, callee *types.Func, st *State) []V
 	g.assume(st, fmt.Sprintf("(=> (= %s 0) (= %s (content %s %s)))", err.T, data.T, fs, p.T))
 	g.assume(st, fmt.Sprintf("(=> (not (= %s 0)) (= (blen %s) 0))", err.T, data.T))
 	g.assume(st, fmt.Sprintf("(=> (isNotExist %s) (isAbsent %s %s))", err.T, fs, p.T))
+	// A-PATHMAX: a path the kernel resolved is at most PATH_MAX (4096) bytes long
+	g.assume(st, fmt.Sprintf("(=> (= %s 0) (<= (blen %s) 4096))", err.T, p.T))
 	return res
+}
+
+func libGetwd(g *FuncGen, c *ast.CallExpr, callee *types.Func, st *State) []Val {
+	res := g.libResults(callee, st)
+	g.assume(st, fmt.Sprintf("(<= (blen %s) 4096)", res[0].T))
+	return res
+}
+
+// filepath.Rel(base, targ): at most one "../" per byte of base, then targ
+func libRel(g *FuncGen, c *ast.CallExpr, callee *types.Func, st *State) []Val {
+	b := g.ev(c.Args[0], st)
+	t := g.ev(c.Args[1], st)
+	g.declFun("relPath", []string{"Bytes", "Bytes"}, "Bytes")
+	res := g.libResults(callee, st)
+	g.assume(st, fmt.Sprintf("(=> (= %s 0) (and (= %s (relPath %s %s)) (<= (blen %s) (+ (* 3 (blen %s)) (blen %s)))))", res[1].T, res[0].T, b.T, t.T, res[0].T, b.T, t.T))
+	return res
+}
+
+func libAbs(g *FuncGen, c *ast.CallExpr, callee *types.Func, st *State) []Val {
+	p := g.ev(c.Args[0], st)
+	g.declFun("absPath", []string{"Bytes"}, "Bytes")
+	res := g.libResults(callee, st)
+	g.assume(st, fmt.Sprintf("(=> (= %s 0) (and (= %s (absPath %s)) (<= (blen %s) (+ 4097 (blen %s)))))", res[1].T, res[0].T, p.T, res[0].T, p.T))
+	return res
+}
+
+func libClean(g *FuncGen, c *ast.CallExpr, callee *types.Func, st *State) []Val {
+	p := g.ev(c.Args[0], st)
+	g.declFun("cleanPath", []string{"Bytes"}, "Bytes")
+	r := Val{fmt.Sprintf("(cleanPath %s)", p.T), types.Typ[types.String], "Bytes"}
+	g.assume(st, fmt.Sprintf("(and (<= (blen %s) (+ 1 (blen %s))) (>= (blen %s) 1))", r.T, p.T, r.T))
+	return []Val{r}
+}
+
+func libReplaceAll(g *FuncGen, c *ast.CallExpr, callee *types.Func, st *State) []Val {
+	s := g.ev(c.Args[0], st)
+	o := g.ev(c.Args[1], st)
+	n := g.ev(c.Args[2], st)
+	g.declFun("replaceAll", []string{"Bytes", "Bytes", "Bytes"}, "Bytes")
+	r := Val{fmt.Sprintf("(replaceAll %s %s %s)", s.T, o.T, n.T), types.Typ[types.String], "Bytes"}
+	// replacing by a string of the same length keeps the length; without an occurrence nothing changes
+	g.assume(st, fmt.Sprintf("(=> (= (blen %s) (blen %s)) (= (blen %s) (blen %s)))", o.T, n.T, r.T, s.T))
+	g.assume(st, fmt.Sprintf("(=> (not (contains %s %s)) (= %s %s))", s.T, o.T, r.T, s.T))
+	return []Val{r}
 }
 
 func libCreate(g *FuncGen, c *ast.CallExpr, callee *types.Func, st *State) []Val {
@@ -528,4 +581,46 @@ func libSscanf(g *FuncGen, c *ast.CallExpr, callee *types.Func, st *State) []Val
 		g.fail("fmt.Sscanf format %q is not modelled", format)
 	}
 	return []Val{n, err}
+}
+
+func libNonNil(g *FuncGen, c *ast.CallExpr, callee *types.Func, st *State) []Val {
+	if sel, ok := unparen(c.Fun).(*ast.SelectorExpr); ok {
+		r := g.ev(sel.X, st)
+		src := g.exprText(sel.X)
+		g.oblige(st, "nil", src, nil, fmt.Sprintf("(not (= %s 0))", r.T), c.Pos(), g.exprText(c.Fun))
+	}
+	for _, a := range c.Args {
+		g.evMulti(a, st)
+	}
+	res := g.libResults(callee, st)
+	for _, r := range res {
+		if isPtr(r.Ty) {
+			g.assume(st, fmt.Sprintf("(not (= %s 0))", r.T))
+		}
+	}
+	return res
+}
+
+// encoding/binary.Read(r, order, &v): v gets a value decoded from the next bytes; a byte slice keeps its
+// length; fixed-size integers stay in range (assumed contract; the decoded content is uninterpreted here).
+func libBinaryRead(g *FuncGen, c *ast.CallExpr, callee *types.Func, st *State) []Val {
+	r := g.ev(c.Args[0], st)
+	g.ev(c.Args[1], st)
+	res := g.libResults(callee, st)
+	u, ok := unparen(c.Args[2]).(*ast.UnaryExpr)
+	if !ok || u.Op.String() != "&" {
+		g.fail("binary.Read: destination is not an address")
+	}
+	old := g.ev(u.X, st)
+	nv := g.freshVal(st, "decoded", g.typeOf(u.X))
+	if old.S == "Bytes" {
+		g.assume(st, fmt.Sprintf("(= (blen %s) (blen %s))", nv.T, old.T))
+	}
+	g.assignTo(u.X, nv, st)
+	// the reader moves forward by an unspecified amount (at most to its end)
+	rp := g.ghostGet(st, "$rdpos")
+	np := g.fresh("pos", "Int")
+	g.assume(st, fmt.Sprintf("(and (<= (select %s %s) %s) (<= %s (blen (rdContent %s))))", rp, r.T, np, np, r.T))
+	g.ghostSet(st, "$rdpos", fmt.Sprintf("(store %s %s %s)", rp, r.T, np))
+	return res
 }
